@@ -15,7 +15,8 @@ META = dict(
                "(advance by recovery_timeout_s, ask for admission) is asserted on each path.",
     bounds=dict(
         quick="8 entry points (Policy/AsyncPolicy x call/execute x with/without retry), breaker prepared open with the "
-              "recovery timeout elapsed so the call under test holds the probe slot; with retry: N=2 scripted attempts over "
+              "recovery timeout elapsed, or already half-open with a free slot (earlier probe cancelled), so the call under test "
+              "holds the probe slot; with retry: N=2 scripted attempts over "
               "{value, TRANSIENT/PERMANENT exception, TRANSIENT result, AbortRetryError, KeyboardInterrupt, SystemExit, "
               "GeneratorExit, CancelledError, nested CircuitOpenError, nested RetryExhaustedError}, max_attempts 2, abort_if "
               "answers symbolic, one raising callback in {on_attempt_start, on_attempt_end, classifier, strategy, sleeper, "
@@ -33,10 +34,16 @@ KINDS = ["ok", "exc", "res", "abort_exc", "kbd", "sysexit", "genexit", "cancelle
 RECOVERY = 5.0
 
 
-def prepared_breaker(clock):
+def prepared_breaker(clock, mode="open_elapsed"):
+    """open_elapsed: the call under test makes the OPEN->HALF_OPEN transition itself;
+    half_free: the breaker is already half-open with a free probe slot (an earlier probe was cancelled), so the call
+    under test is admitted without any transition event."""
     br = CircuitBreaker(failure_threshold=1, window_s=100.0, recovery_timeout_s=RECOVERY, clock=lambda: clock.now)
     br.record_failure(EC.TRANSIENT)
     clock.now = clock.now + RECOVERY + 1
+    if mode == "half_free":
+        assert br.allow().allowed
+        br.record_cancel()
     return br
 
 
@@ -72,7 +79,8 @@ def h_retry(sym, params):
                 raise ValueError("abort_if")
             return r
         w.abort_if = abort_if
-    br = prepared_breaker(w.clock)
+    prep = sym.choice("prepared", ["open_elapsed", "half_free"])
+    br = prepared_breaker(w.clock, prep)
     w.run(params["entry"], breaker=br, inject=inject)
     ok = settled(br, w.clock)
     # classify how the call ended (finding key)
@@ -150,8 +158,9 @@ def h_noretry(sym, params):
     kw = dict(on_attempt_start=on_start, on_attempt_end=on_end)
     if pre_abort != "absent":
         kw["abort_if"] = abort_if
+    prep = sym.choice("prepared", ["open_elapsed", "half_free"])
     with env.patched(clock):
-        br = prepared_breaker(clock)
+        br = prepared_breaker(clock, prep)
         pol = (AsyncPolicy if is_async else Policy)(circuit_breaker=br)
         try:
             if is_async:
